@@ -39,12 +39,23 @@ CHECKS = {
             "clones real fitnesses through copy.copy / copy.deepcopy / pickle (all protocols) / toolbox.clone / cloned and pickled individuals under arbitrary finite "
             "non-zero float weights and arbitrary doubles (ordinary, power-of-two boundary, subnormal, saturating), demands `compares equal` and diffs the weighted values "
             "bit for bit against the R64 model (itself cross-checked against the machine's Float in the driver). numpy fixed-width integer values (uint8..uint64, "
-            "int8..int64, each type's minimum and maximum, scalars and arrays) under float weights of both signs are judged on the exact value*weight.",
-            TB + "IEEE products of the test inputs are exact (weights +-1 for the near-tie stream, small dyadics otherwise; model uses Rat); CPython tuple comparison/slicing "
+            "int8..int64, each type's minimum and maximum, scalars and arrays) under float weights of both signs are judged on the exact value*weight. "
+            "TRANSLATOR TIE (round 8): on every run harness/py2lean_c01.py re-reads deap/base.py and regenerates 31 Lean definitions Gen01.<Class>_<method> "
+            "(Fitness: getValues, setValues, delValues, valid, dominates, __hash__, the six operators, __init__, __deepcopy__; _violates_constraint; "
+            "ConstrainedFitness: the six operators, __hash__, dominates with its objective slice, the values deleter, __init__, __deepcopy__); 30 committed theorems "
+            "(lean/DeapModel/GenEq/C01.lean.tmpl) are kernel-checked per run: each generated definition EQUALS the hand-written model (Fitness.getValues / setValues / "
+            "dominates on the index lists slice.indices produces / le lt eq gt ge ne / hashWith / init / deepcopy / violates / cle clt ceq cgt cge cne / cdominatesObj / "
+            "cinit / cdeepcopy) at every scalar type; a source change that alters a translated method breaks an obligation before any input is sampled. "
+            "New model theorems C01.cdominatesObj_all / cdominatesObj_cases (the sliced constrained dominance of repair F38).",
+            TB + "translator tie: the rendering rules in the docstring of harness/py2lean_c01.py and the prelude Core/GenPreludeC01.lean (slice.indices, forRet, isum) are trusted; "
+            "methods are rendered as functions of the declared fields (wvalues, constraint_violation, the class's weights: a table that is an assumption of the tie) - "
+            "no metaclass, property object, descriptor protocol, instance __dict__ or object identity is rendered; __str__ / __repr__ are outside the sub-language; "
+            "a slice with step 0 and exceptions of float arithmetic are not rendered. IEEE products of the test inputs are exact (weights +-1 for the near-tie stream, small dyadics otherwise; model uses Rat); CPython tuple comparison/slicing "
             "modelled in Core/Py.lean; the read-back clause is demanded for weights +-1 only, as the statement says, and for values that are doubles; binary64 "
             "round-to-nearest-even = Fitness.rn64 in the normal range (replayed against Float and CPython on every rclone line); numpy integer values are paired with float "
             "weights (64-bit integers beyond 2**53 are read as the doubles they convert to).",
-            "Lean 4 proof over a hand-written model + differential correspondence + oracle"),
+            "Lean 4 proof over a hand-written model + differential correspondence + oracle "
+            "+ translator tie (definitions regenerated from source, kernel-checked equal to the model)"),
     "C02": ("full",
             "Lean theorems (C02.varAnd_/varOr_ count, parents_unchanged, inputs_unchanged, fresh, not_input, distinct, touched_invalid, untouched_is_clone/"
             "reproduced_is_clone, valid_is_parent_copy, varAnd_next_le, isSome, decodeAnd_lengths, decodeOr_length) hold for every population (repeated individuals "
@@ -106,15 +117,26 @@ CHECKS = {
             "instances that name what memoised bounds / markers left dirty by an aborted call would break). The history stream (second in the run) runs 2-6 calls per "
             "process image on reused objects - bound lists and individuals overwritten in place between calls, tours numbered 1..n / labels >= size / too-short bounds / "
             "low > up / too-short individuals / numpy slices of unequal length raising in between - judges EVERY valid call by the statement against its own arguments at "
-            "call time and replays the whole history, aborted calls' partial states included, on that machine.",
-            TB + "CPython list/array item+slice assignment and tuple-assignment order as transcribed; numpy slice = view, item = scalar (one-dimensional individuals), "
+            "call time and replays the whole history, aborted calls' partial states included, on that machine. "
+            "TRANSLATOR TIE: on every run harness/py2lean_c09.py re-reads deap/tools/crossover.py and mutation.py of the tree under test and renders cxOnePoint, cxTwoPoint(s), "
+            "cxMessyOnePoint, cxUniform, cxESTwoPoint(s), cxPartialyMatched, cxUniformPartialyMatched, mutShuffleIndexes, mutFlipBit, mutInversion as Lean definitions Gen.<f> "
+            "(object cells with aliasing, CPython's tuple-assignment order, item / slice assignment in state-passing style, draws read from an explicit two-channel tape, "
+            "for loops as folds in Option); the committed theorems of lean/DeapModel/GenEq/C09.lean.tmpl (12, audited with the others) prove for ten of them that on EVERY tape "
+            "the regenerated definition equals CrossMut.<f> under its ...Ok guard, hands back the rest of the tape and is none outside the guard (so the randint/randrange "
+            "argument ranges are tied too); a change of these functions' source breaks an obligation whatever inputs it needs, a behaviour-preserving rewrite re-proves "
+            "(helpers extracted, temporaries, comparison instead of min/max). PMX/UPMX are regenerated without a theorem; cxOrdered and mutUniformInt are outside the "
+            "sub-language (refused, listed per run in evidence/C09.translated.json) and stay tied by correspondence only.",
+            TB + "the translator harness/py2lean_c09.py (docstring = sub-language and rendering rules) with Core/GenPrelude.lean + Core/GenPreludeC09.lean and the signature table "
+            "of harness/props/c09_translate.py (lists of opaque genes, distinct objects, list copy semantics - numpy views stay with the Buffer model); "
+            "CPython list/array item+slice assignment and tuple-assignment order as transcribed; numpy slice = view, item = scalar (one-dimensional individuals), "
             "assignment-time read of the right-hand side (overlap copied first, numpy >= 1.13), broadcast rule as transcribed in Core/Buffer.lean and exercised on real "
             "arrays by the representation stream; random functions return values in their documented ranges (uniform_int_bounds is about position<->bound alignment); "
             "parents are distinct objects; the oracle's domain is list/array.array for every operator and numpy for the element-wise operators only (as the statement's "
             "quantifier says): slice-swapping crossovers and mutInversion on numpy are compared with the view model, never judged; in-place/identity (in_place1/2/_es fix "
             "the model's convention; the buffer operators return the ids they were given and the refinement theorems carry a frame condition) is established on the real "
             "objects by `is` on every case.",
-            "Lean 4 proof over a hand-written model (list model + heap/buffer model with slice disciplines, refinement proved) + tape-replay differential correspondence + oracle"),
+            "Lean 4 proof over a hand-written model (list model + heap/buffer model with slice disciplines, refinement proved) + tape-replay differential correspondence + oracle "
+            "+ translator tie (definitions regenerated from source, kernel-checked equal to the model)"),
     "C19": ("full",
             "Lean theorems C19.feasible_passthrough_delta/closest, delta_no_call, delta_formula(+_no_distance), delta_length, closest_calls, "
             "closest_formula, closest_length, closest_size_mismatch, never_better_delta/closest, monotone_in_distance_delta/closest hold over every "
@@ -131,11 +153,19 @@ CHECKS = {
             "keyword-name pool of 75 names (every identifier of constraint.py's wrappers, typical option names such as verbose/debug) with evaluation functions "
             "whose VALUE depends on their options, and numpy fixed-width integer distances/constants (int8..uint64, scalars and arrays) x Python-int / float / numpy "
             "constants at magnitudes on both sides of the width's range for both decorators. Known finding F36 (DeltaPenalty computes in the fixed-width integer "
-            "type of a numpy distance/constant and wraps or raises OverflowError) is classified for exactly that input class and reported as KNOWN-FINDING.",
-            TB + "IEEE arithmetic on the dyadic test inputs is exact (model uses Rat); decorators_stateless / wrappers_independent / penalty_history_independent are "
+            "type of a numpy distance/constant and wraps or raises OverflowError) is classified for exactly that input class and reported as KNOWN-FINDING. "
+            "TRANSLATOR TIE (round 8): on every run the wrapper bodies of DeltaPenalty.__call__ and ClosestValidPenalty.__call__ are re-read from "
+            "deap/tools/constraint.py and regenerated as Gen19.DeltaPenalty_wrapper / Gen19.ClosestValidPenalty_wrapper (harness/props/c19_translate.py over "
+            "harness/py2lean_c01.py); 2 committed theorems (lean/DeapModel/GenEq/C19.lean.tmpl) are kernel-checked per run: the generated definition EQUALS "
+            "Penalty.deltaPenalty / Penalty.closestValidPenalty - returned fitness and call log - at every scalar type, for every X, A and every function parameter.",
+            TB + "translator tie: the rendering rules in the docstrings of harness/py2lean_c01.py and harness/props/c19_translate.py are trusted (closure = one definition with "
+            "self.fbty_fct / delta / dist_fct / fbl_fct / alpha / func as typed parameters, one scalar type for numbers, call log of func, number-or-vector and repeat(c) as "
+            "Penalty.SV, the idiom `if not _is_vector(v): v = repeat(v)`, zip cut to the finite operands); functools.wraps, closure cells, __init__ and iterator state "
+            "are not rendered. IEEE arithmetic on the dyadic test inputs is exact (model uses Rat); decorators_stateless / wrappers_independent / penalty_history_independent are "
             "congruence facts that hold of any Lean function - history independence of the implementation (also across fitness classes and decorator objects) is "
             "established by the sequence and family streams. Inputs of known finding F36 are judged by the oracle alone (no model line).",
-            "Lean 4 proof over a hand-written model + differential correspondence + oracle"),
+            "Lean 4 proof over a hand-written model + differential correspondence + oracle "
+            "+ translator tie (definitions regenerated from source, kernel-checked equal to the model)"),
     "C10": ("partial",
             "Lean theorems over the reals (C10.blend_sum/esblend_sum/sbx_sum, blend_range/esblend_range, sbx_welldefined, "
             "sbxb_welldefined + sbxb_bounds + sbxb_unclamped, poly_welldefined + poly_bounds + poly_unclamped, gauss_len, gauss_indpb0, "
@@ -199,8 +229,15 @@ CHECKS = {
             "(C04.sortStd_eq_peel, C04.sortLog_eq_peel), and the cut satisfies the contract for any such fronts; crowding_spec shows assignCrowdingDist equals the "
             "statement's formula on pairwise-distinct fronts. The correspondence replays the cut on the implementation's fronts and float distances, compares "
             "distances exactly or within 1e-9, and whole selNSGA2 on an exact family; the contract is evaluated as an oracle on the returned objects for both nd values.",
-            TB + "float distances are compared with tolerance outside the exact family; nd='log' for m >= 2 objectives.",
-            "Lean 4 proof over a hand-written model + differential correspondence + oracle"),
+            TB + "float distances are compared with tolerance outside the exact family; nd='log' for m >= 2 objectives. "
+            "Translator tie (harness/py2lean_c05.py, rules in its docstring): isDominated, median, splitA, splitB, assignCrowdingDist and selNSGA2 are regenerated "
+            "from the current emo.py as Lean definitions on every run; 6 kernel-checked theorems (lean/DeapModel/GenEq/C05.lean.tmpl) state that the regenerated "
+            "isDominated, splitA, splitB and assignCrowdingDist ARE the hand-written models (isDominated and assignCrowdingDist over any scalar, the splits over every "
+            "ordered field) and that twice the regenerated median is the model's median2 (halving before adding, equal-middle shortcut and nan guard change nothing over "
+            "an ordered field; nan/inf outside the rendering). selNSGA2 is rendered (sorters as parameters, crowding_dist as a store keyed by the individual) but its "
+            "equality with cutWith/selFromFronts is not proved yet; sortNondominated, sortLogNondominated, sortNDHelperA/B, sweepA/B are refused (dict bookkeeping, "
+            "recursion with a mutated dict, bisect/del/insert, while) and stay tied by the differential correspondence only.",
+            "Lean 4 proof over a hand-written model + differential correspondence + oracle + translator tie (definitions regenerated from source, kernel-checked equal to the model)"),
     "C06": ("full",
             "Lean theorems (C06.k0*, length_*/refs_* for all eleven operators, best_sorted/worst_sorted, tournament_winner(+total), random_total, "
             "double_size_first_iff/double_fitness_first_iff/parsimony_rule/double_total_* (the parsimony stage: the smaller individual wins iff r < ps/2), "
@@ -213,12 +250,17 @@ CHECKS = {
             "own random draws (results compared as input indices, identity by `is`), incl. near-tie fitnesses a few ulps apart, fit_attr='other', the same object listed "
             "at several positions for every operator (mating pools) and negative values; histories of 2-6 calls in one process over fresh families of base / derived fitness "
             "classes (weights overridden or inherited, both orders of first use, re-used and re-evaluated population objects, alternating fit_attr and k) are replayed against "
-            "Selection.runHistory as one request; the statement is evaluated as an oracle on the real result incl. population snapshots.",
+            "Selection.runHistory as one request; the statement is evaluated as an oracle on the real result incl. population snapshots. "
+            "Translator tie: selRandom, selBest, selWorst, selTournament, selRoulette, selStochasticUniversalSampling are regenerated from the source under test on every run "
+            "(harness/py2lean_c06.py: individuals as positions, random.* as tape reads, loops with state / break / while) and the kernel checks Gen.<f> = Selection.<f> "
+            "for every population, parameter and tape (GenEq/C06.lean.tmpl, 6 theorems); selLexicase / selEpsilonLexicase / selTournamentDCD are rendered without a theorem, "
+            "selDoubleTournament (functools.partial) and selAutomaticEpsilonLexicase (numpy.median) are refused - these five stay tied by correspondence only.",
             TB + "exact regime: dyadic fitnesses, roulette/SUS draws j/1024 with S/k dyadic; CPython sorted/max/uniform and numpy.median as modelled; inf crowding "
             "distance transported as 10^6; SUS count clause assumes the uniform draw is not exactly 0.0 (F13, companion theorem sus_counts_r0); 'never copies' and "
             "'population unmodified' are structural in the model (indices into an immutable population) and checked on the real objects; randomness drawn outside the "
             "hooked functions is detected (generator state snapshots) and reported as a correspondence break (TAPE:).",
-            "Lean 4 proof over a hand-written model + tape-replay differential correspondence + oracle"),
+            "Lean 4 proof over a hand-written model + tape-replay differential correspondence + oracle + translator tie (definitions regenerated from "
+            "source, kernel-checked equal to the model)"),
     "C20": ("partial",
             "Lean theorems over R/Q for all dimensions, objective counts, tapes and histories: dtlz1_sum (sum f_i = (1+g)/2), dtlz2..6_norm "
             "(sum f_i^2 = (1+g)^2, DTLZ5/6 on the repaired first objective), zdt1/2/3/4/6_f2 (f2 = g h(f1,g) with the published g), exact optima "
@@ -256,7 +298,11 @@ CHECKS = {
             "Lean theorems (C08.never_raises, mirror(+_index), sorted_desc, keys_sorted, size_le, worst_monotone, members_shown, copies_fresh, copies_frame, "
             "pairwise_dissimilar (needs only a symmetric similarity), all_kept_while_room (reflexive+symmetric), best_of_seen(+_gt) (additionally: similar shown "
             "individuals have equal fitness - best_of_seen_needs_fit shows by a concrete history that this hypothesis is necessary); pf_never_raises, pf_mirror, "
-            "pf_sorted, pf_copies, pf_antichain (any similarity, equal objective counts), pf_no_twins, pf_exact, dom_meaning) hold for every history of update batches, "
+            "pf_sorted, pf_copies, pf_antichain (any similarity, equal objective counts), pf_no_twins, pf_exact, dom_meaning; cutting and order: pf_update_batch_split / "
+            "hof_update_batch_split (update(xs ++ ys) = update ys after update xs, for every archive state and capacity), pf_/hof_history_flatten and "
+            "pf_/hof_batch_split_invariant (the archive, copy identities included, depends only on the sequence of individuals shown, not on where the batches end), "
+            "pf_members_order_invariant / pf_members_perm_invariant (histories showing the same set of individuals - any permutation, any repetition - leave Pareto archives "
+            "with the same set of member fitnesses, matched by similar members, and the same (genome, fitness) set when similar individuals have equal genomes)) hold for every history of update batches, "
             "every capacity >= 1, every genome type and every linearly ordered scalar, for the pure model Core/Archive.lean (two parallel lists, CPython's bisect loop, "
             "remove index arithmetic, to_remove deleted in reverse).  The deep-copy clause is a theorem about the heap-level model Core/ArchiveHeap.lean, whose members are "
             "object graphs in the heap of Core/Heap.lean and whose insert is copy.deepcopy as modelled and proved for C16 (memo, class-specific hooks): "
@@ -268,7 +314,10 @@ CHECKS = {
             "pure archive unchanged), heap_hof_refines / heap_pf_refines (lockstep: the heap-level archive denotes the pure archive run on the populations as they were "
             "when shown, same exceptions), heap_never_raises, heap_members_shown, and the transferred clauses heap_hof_order, heap_hof_best_of_seen, heap_pf_exact.  "
             "Both models are diffed against deap.tools.HallOfFame/ParetoFront: the pure one after every update on exhaustive short histories from four 6-individual "
-            "universes plus random histories (re-submission, near-tie and large-magnitude fitnesses, batches of 11-40, capacities 16-40); the heap-level one on histories "
+            "universes plus random histories (re-submission, near-tie and large-magnitude fitnesses, batches of 11-40, capacities 16-40) and LARGE archives (Pareto fronts of "
+            "16..129 members, 2-4 objectives of mixed weights, one individual dominating 16/17/32/33/64/65/128/129 members at once followed or preceded in the same batch "
+            "by dominated / in-between / equal / twin / incomparable individuals, batches cut at random; halls of fame of capacity 16..200 with bulk evictions; the statement "
+            "recomputed by brute force from the full log); the heap-level one on histories "
             "with in-place modifications of submitted objects at every level between the updates (gene and inner-list edits, strategy/meta/scalar attributes, "
             "fitness.values = ..., del fitness.values, new Fitness / strategy objects, re-filled genomes; list and set individuals), the caller's object graph being "
             "mirrored into the model's heap as write/alloc events and members/keys compared after every update and after every round of modifications (a member "
@@ -316,7 +365,15 @@ CHECKS = {
             "graph_nodes_labels, graph_edges_tree, graph_unique_parent (gp.graph's stack loop returns exactly the parent->child edges of the prefix tree, len-1 of them, every non-root "
             "with one parent) and semantic_mut_denotes(+_real), semantic_cx_denotes(+_real), evalTree_is_evalG (the offspring of mutSemantic / cxSemantic denote "
             "ind + ms*(lf(tr1)-lf(tr2)) and lf(tr)*ind1 + (1-lf(tr))*ind2 - over any carrier and over the reals with the logistic function, where child 1 lies between the parents; "
-            "child 2 contains child 1); correspondence: gp.graph on trees of every set, semantic offspring as tree sources, compiled offspring against the model's offspring and the closed formulas.",
+            "child 2 contains child 1); correspondence: gp.graph on trees of every set, semantic offspring as tree sources, compiled offspring against the model's offspring and the closed formulas. "
+            "Round 8: renaming HISTORIES — a tree object holds references to the set's argument terminals, renameArguments mutates them in place; Core/GpCompile.lean models the state as the "
+            "current names by position (renameArgs, renameHistory, viewNode/viewTree, evalRef = the name-free direct interpretation, runSession) and C12.compile_after_rename_history / "
+            "pyCompile_after_rename_history (for EVERY sequence of renamings, compile of the unchanged tree object under the final names = evalRef with argument i bound to the i-th value, "
+            "given distinct final names that are no other node's text), session_last_observation (what str/compile return after any session of str/compile/rename steps is a function of the "
+            "node list and the final names only), str_after_rename_history, rename_back prove it; correspondence + oracle: a first stream of histories on ONE fresh set and a few tree objects "
+            "(str, compile, renameArguments plain/swap/3-cycle/freed-name/back/original/no-op, from_string round trip, deepcopy/pickle, the seven variation operators in place, compileADF "
+            "families with renamings of the ADF sets, earlier callables called again), after every step compile(tree)(args) against the direct interpretation of the current nodes and str "
+            "against the recursive printer under pset.arguments; one `hist` line per tree object and segment against runSession.",
             TB + "Still trusted (reason for 'partial'): that CPython's tokenizer/parser/evaluator of Name, Constant, Call, UnaryOp(USub) and Lambda nodes agrees with the Lean language model "
             "(compared on every run, AST against ast.parse and values against the compiled callable, not proved); repr of constants; IEEE arithmetic of Lean's Float.",
             "Lean 4 proof over a hand-written model + differential correspondence + oracle"),
@@ -465,7 +522,11 @@ CHECKS = {
             "the reals, correspondence uses relative tolerance 1e-9 (inverse checks scaled by cond).",
             "Lean 4 proof over a hand-written model (Mathlib matrices via a list<->Matrix bridge) + differential correspondence with tolerance + oracle"),
     "C16": ("partial",
-            "Lean theorems C16.create_succeeds, fresh_attrs, clone_equal, create_then_clone, clone_disjoint, clone_shares_no_mutable, write_independent, "
+            "Lean theorems C16.derived_create_fresh_attrs / derived_attr_class (creator classes DERIVED FROM creator classes, Core/HeapDerive.lean: the "
+            "__init__ chain runs every class's own closure dict, child first, then base.__init__; every per-instance attribute declared by ANY class on the "
+            "creator-MRO is a reference to an object allocated by that very constructor call, nothing reachable from an attribute of one instance is reachable "
+            "from one of another, and a name declared on several levels keeps the declaration executed last, the root-most class's; replayed against histories "
+            "create / instantiate / derive / instantiate over every base by Heap.runEvents), create_succeeds, fresh_attrs, clone_equal, create_then_clone, clone_disjoint, clone_shares_no_mutable, write_independent, "
             "clone_chain, pickle_equal, pickle_disjoint, meta_create_equivalent / meta_create_keeps_old / meta_create_old_instances / meta_create_rebinds "
             "(creating a class again under the same name yields an equivalent class, the old class object and its instances keep working, the module name "
             "is rebound), class_roundtrip, namespace_history_keeps_classes, pickle_class_independent_of_namespace / loaded_object_class_record / "
